@@ -71,10 +71,19 @@ Fixpoint tree_obs (n : node) : list oitem :=
   end.
 
 Definition sig_eqb (a b : Z * list Z) : bool := (fst a =? fst b) && zlist_eqb (snd a) (snd b).
-(* labels: the model returns the raw literal; Go unescapes. Compare exactly
-   unless a backslash occurs (then only the presence of the label). *)
+(* labels: the model returns the raw literal; Go unescapes (backslash escapes,
+   $${ and %%{). Compare exactly unless a backslash, "$$" or "%%" occurs (then
+   only the presence of the label). *)
+Fixpoint has_escape (m : list Z) : bool :=
+  match m with
+  | [] => false
+  | a :: r =>
+      (a =? 92)
+      || match r with b :: _ => ((a =? 36) && (b =? 36)) || ((a =? 37) && (b =? 37)) | [] => false end
+      || has_escape r
+  end.
 Definition label_eqb (m o : list Z) : bool :=
-  if existsb (Z.eqb 92) m then true else zlist_eqb m o.
+  if has_escape m then true else zlist_eqb m o.
 
 Fixpoint oitem_eqb (a b : oitem) : bool :=
   match a, b with
@@ -124,6 +133,8 @@ Definition check_load_case (c : case) : bool :=
           && zlist_eqb (file_bytes tree) (unhex fb)
           (* ranges_wf holds exactly when the real loader lost nothing *)
           && Bool.eqb (ranges_wf (c_toks c) f) (toks3_eqb oflat (map tok3 (tokens (c_toks c))))
+          (* the label shape assumed by accessors_complete holds for every error-free parse *)
+          && file_labels_ok (c_toks c) f
       end
   | _, _ => false
   end.
@@ -131,7 +142,7 @@ Definition check_load_case (c : case) : bool :=
 Definition check_load_cases (cs : list case) : list Z := failing check_load_case cs.
 
 (* diagnostic helper for a failing case: which component disagrees
-   (1 flat, 2 shape, 3 accessors, 4 bytes, 5 wf-vs-loss, 6 outcome class) *)
+   (1 flat, 2 shape, 3 accessors, 4 bytes, 5 wf-vs-loss, 6 outcome class, 7 label shape) *)
 Definition explain_load_case (c : case) : list Z :=
   match c_ast c, c_obs c with
   | None, ObsNil => []
@@ -145,6 +156,7 @@ Definition explain_load_case (c : case) : list Z :=
           ++ (if list_eqb oitem_eqb (tree_obs tree) acc then [] else [3])
           ++ (if zlist_eqb (file_bytes tree) (unhex fb) then [] else [4])
           ++ (if Bool.eqb (ranges_wf (c_toks c) f) (toks3_eqb oflat (map tok3 (tokens (c_toks c)))) then [] else [5])
+          ++ (if file_labels_ok (c_toks c) f then [] else [7])
       end
   | Some f, ObsPanic =>
       match load (c_toks c) f with Panic _ => if ranges_wf (c_toks c) f then [5] else [] | Ok _ => [6] end
